@@ -28,7 +28,7 @@ ASSUMPTIONS = ["a sub-daily reading covers its nominal interval (15/30/60 min), 
                "billing reads are monthly when the median period is <= 35 days, else bi-monthly"]
 REQUIRED_REACH = {"dataset.judged": 40, "billing.periods_judged": 100, "billing.offcycle_periods": 5, "subdaily.days_judged": 1000, "subdaily.full_days": 800,
                   "subdaily.partial_days_over_half": 10, "subdaily.days_half_or_less": 10, "subdaily.dst_days": 5, "post.as_freq_cumulative": 30,
-                  "post.clean_billing_data": 10, "subdaily.series_starting_midday": 6}
+                  "post.clean_billing_data": 10, "subdaily.series_starting_midday": 6, "billing.gas_zero_reads": 1, "subdaily.gas_all_zero_days": 3}
 
 VIOL = []
 
@@ -102,8 +102,12 @@ def billing_case(spec, rng, keys):
     didx = daily_index(tz, start, days + 1)
     starts = np.concatenate([[0], np.cumsum(steps)])
     vals = rng.integers(200, 3000, nper).astype(float)
+    gas = bool(spec.get("gas"))                                   # non-electric meter: a zero read is real usage (a summer gas bill), not a missing read
     if spec.get("zero_read"):
         vals[int(rng.integers(0, nper))] = 0.0
+        if gas:
+            vals[int(rng.integers(0, nper))] = 0.0
+            I.reach("billing.gas_zero_reads")
     reads = pd.Series(np.concatenate([vals, [np.nan]]), index=didx[starts], name="value")
     temp = pd.Series(np.round(55 + rng.normal(0, 8, days + 1), 1), index=didx, name="temp")
     if spec["entry"] == "series" and spec["n"] % 2:
@@ -119,11 +123,11 @@ def billing_case(spec, rng, keys):
     tag = {k: spec[k] for k in ("tz", "cycle", "offcycle", "entry", "role")}
     try:
         if spec["entry"] == "series":
-            data = cls.from_series(reads, temp, is_electricity_data=True)
+            data = cls.from_series(reads, temp, is_electricity_data=not gas)
         else:
             df = pd.DataFrame({"temperature": temp})
             df["observed"] = reads.reindex(didx)
-            data = cls(df.iloc[:-1], is_electricity_data=True)
+            data = cls(df.iloc[:-1], is_electricity_data=not gas)
     except Exception as e:
         add("constructor-raised:billing:%s" % type(e).__name__, "billing %s entry raised %s: %s" % (spec["entry"], type(e).__name__, str(e)[:160]), **tag)
         return 1
@@ -146,7 +150,7 @@ def billing_case(spec, rng, keys):
         got = o.to_numpy(dtype=float)[sel]
         I.reach("billing.periods_judged")
         n += 1
-        near_missing_read = amount == 0.0 or (i + 1 < nper and vals[i + 1] == 0.0) or (i > 0 and vals[i - 1] == 0.0)
+        near_missing_read = (amount == 0.0 or (i + 1 < nper and vals[i + 1] == 0.0) or (i > 0 and vals[i - 1] == 0.0)) and not gas
         if near_missing_read:
             # recorded mechanism: a missing (zero electric) read is dropped before the period lengths are computed, so the periods around
             # it are merged: lengths, validity and shares of exactly these periods follow the merged calendar, not the billed one
@@ -159,7 +163,7 @@ def billing_case(spec, rng, keys):
                     "period of %d days starting %s next to a missing (zero) read: data.df holds %s, billed calendar says %s" % (
                         L, didx[starts[i]], "usage %.3f" % float(np.nansum(g_)) if np.isfinite(g_).any() else "nothing", "nothing" if exp_missing else "%.3f" % amount), **tag)
             continue
-        if amount == 0.0:
+        if amount == 0.0 and not gas:
             valid_amount = None          # zero electric read = missing
         else:
             valid_amount = amount
@@ -238,6 +242,12 @@ def subdaily_case(spec, rng, keys):
             mask[day_id == d] = True
     elif pat == "zeros":
         v[rng.random(len(idx)) < 0.03] = 0.0
+    electric = not spec.get("gas")
+    if not electric and pat in ("zeros", "none"):
+        # a gas meter that really uses nothing on some days: every reading of those days is exactly 0 (the day's usage is 0, not missing)
+        for d in rng.choice(inner, size=min(3, len(inner)), replace=False):
+            v[day_id == d] = 0.0
+        I.reach("subdaily.gas_all_zero_days")
     if spec.get("start_offset_frac") and minutes < 1440:
         # the series starts part-way through its first local day (aligned to the reading interval, not to midnight)
         first = np.flatnonzero(day_id == 0)
@@ -258,7 +268,6 @@ def subdaily_case(spec, rng, keys):
         meter = meter.iloc[lead:]                                  # the leading part of the first day is simply not there
     temp = hourly_temp(tz, t0, t1, rng)
     tag = {k: spec[k] for k in ("tz", "minutes", "pattern", "gap_kind", "entry", "start", "days")}
-    electric = True
     try:
         if spec["entry"] == "series":
             data = em.DailyBaselineData.from_series(meter, temp, is_electricity_data=electric)
@@ -363,7 +372,7 @@ def gen_cases(tier, seed):
     for i in range(24 if q else 500):
         cases.append(dict(kind="billing", tz=zones[i % (5 if q else len(zones))], cycle="monthly" if i % 3 else "bimonthly", offcycle=offs[i % len(offs)],
                           n_periods=int(rng.integers(8, 15)) if i % 3 else int(rng.integers(6, 9)), entry="series" if i % 4 else "frame",
-                          role="baseline" if i % 5 else "reporting", zero_read=bool(i % 11 == 10), n=k))
+                          role="baseline" if i % 5 else "reporting", zero_read=bool(i % 11 == 10 or i % 7 == 3), gas=bool(i % 7 == 3), n=k))
         k += 1
     pats = ["none", "isolated", "runs", "over_half", "exactly_half", "under_half", "whole_days", "zeros"]
     for i in range(48 if q else 1000):
@@ -371,6 +380,8 @@ def gen_cases(tier, seed):
         start = str(rng.choice(["2019-03-01", "2019-10-20", "2020-03-20", "2019-09-25"])) if rng.random() < 0.5 else str((pd.Timestamp("2019-01-01") + pd.Timedelta(days=int(rng.integers(0, 700)))).date())
         cases.append(dict(kind="subdaily", tz=zones[i % (5 if q else len(zones))], minutes=minutes, pattern=pats[(i // 2) % len(pats)] if minutes < 1440 else ["none", "isolated", "zeros"][i % 3],
                           gap_kind="nan" if i % 2 else "absent", entry="series" if i % 3 else "frame", start=start, days=int(rng.choice([20, 35, 50])), n=k))
+        if cases[-1]["pattern"] in ("zeros", "none") and i % 5 < 3:
+            cases[-1]["gas"] = True
         k += 1
     for i in range(12 if q else 150):
         minutes = [60, 15, 30][i % 3]
